@@ -140,6 +140,10 @@ Verdict check_plan(const Plan& p, Stats& st) {
     g_run_jmp_set = true;
     if (sigsetjmp(g_run_jmp, 1) == 0) {
         v = check_plan_inner(p, st);
+    } else if (g_run_abandoned) {
+        g_run_abandoned = false;
+        st.probe("run_abandoned_simulator_arena_exhausted");
+        g.cur = &g.main_ctx; g.main_ctx.in_call = false; g.main_ctx.jmp_set = false; g.yield_hook = nullptr; g.conc = false;
     } else {
         // objects of the aborted check are leaked on purpose; the world is reset by the next run
         v.violated = true; v.kind = V_CRASH; v.op = g.violations.empty() ? -1 : g.violations.back().op;
